@@ -196,7 +196,7 @@ impl<'a, R: BufRead + Seek> BLF2DltMsgIterator<'a, R> {
             payload_text,
             lifecycle: 0,
         };
-        self.index += 1;
+        self.index = self.index.wrapping_add(1); // the last msg can have index MAX
         dlt_msg
     }
 
@@ -339,7 +339,7 @@ where
     fn next(&mut self) -> Option<Self::Item> {
         if let Some(mut msg) = self.msgs_deque.pop_front() {
             msg.index = self.index;
-            self.index += 1;
+            self.index = self.index.wrapping_add(1); // the last msg can have index MAX
             msg.standard_header.mcnt = (msg.index & 0xff) as u8; // this is wrong... (as it should be per apid/ctid)
             return Some(msg);
         }
